@@ -378,6 +378,7 @@ func ruleCtxRestore(c *Ctx) []Obligation {
 			out = append(out, Obligation{Key: rel + "|context field|" + m.fieldName(f), Pos: c.Pos(f.Pos()), Status: Info, Detail: "discovered: " + strings.Join(m.ctx[f].evidence, "; ")})
 		}
 		out = append(out, actxSwitchOrder(c, a)...)
+		out = append(out, actxArgsBeforeSwitch(c, a)...)
 		var fns []*types.Func
 		for fn := range a.res {
 			fns = append(fns, fn)
@@ -1218,6 +1219,193 @@ func actxSwitchOrder(c *Ctx, a *actxAnalysis) []Obligation {
 				out = append(out, ob)
 			}
 		}
+	}
+	return out
+}
+
+// actxArgsBeforeSwitch: the mirror image of actxSwitchOrder. A function that
+// acts for a callee value (it has a parameter of the engine's runtime value
+// interface) and receives the caller's still unevaluated argument expressions
+// (a slice parameter whose elements carry an analysed expression) must
+// evaluate those expressions in the context of the CALLER: every call that is
+// handed (part of) an element of that parameter lies before the first change
+// of the name-resolution context — a store into the owner field (current
+// module) or one of its member fields (the scope stack), directly or through a
+// leaf setter (module switch, scope push). No path may change the context
+// first and evaluate a caller-supplied expression afterwards: `let x = 5;
+// f(x)` would resolve `x` in the scopes of the callee. After the change only
+// callee-owned things (its block, its parameter names) are evaluated.
+func actxArgsBeforeSwitch(c *Ctx, a *actxAnalysis) []Obligation {
+	m := a.m
+	c.SSA()
+	run := &actxRun{m: m}
+	// the resolution context: owner fields with members, and those members
+	ctxField := map[*types.Var]*types.Var{} // field → its owner field
+	for _, f := range m.sortedCtx() {
+		if mem := run.members(f); len(mem) > 0 {
+			ctxField[f] = f
+			for _, mf := range mem {
+				ctxField[mf] = f
+			}
+		}
+	}
+	if len(ctxField) == 0 {
+		return nil
+	}
+	// leaf setters (transitively through leaf setters) that write such a field
+	writesCtx := map[*types.Func]*types.Var{}
+	for changed := true; changed; {
+		changed = false
+		for _, g := range m.order {
+			if !m.inlinable[g] || writesCtx[g] != nil {
+				continue
+			}
+			for _, w := range m.writes[g] {
+				if o := ctxField[w.field]; o != nil && writesCtx[g] == nil {
+					writesCtx[g] = o
+					changed = true
+				}
+			}
+			for _, h := range m.callees[g] {
+				if o := writesCtx[h]; o != nil && writesCtx[g] == nil {
+					writesCtx[g] = o
+					changed = true
+				}
+			}
+		}
+	}
+	carriesExpr := func(t types.Type) bool {
+		sl, ok := t.Underlying().(*types.Slice)
+		if !ok {
+			return false
+		}
+		el := sl.Elem()
+		if p, ok := el.(*types.Pointer); ok {
+			el = p.Elem()
+		}
+		st, ok := el.Underlying().(*types.Struct)
+		if !ok {
+			return false
+		}
+		for i := 0; i < st.NumFields(); i++ {
+			if n, ok := st.Field(i).Type().(*types.Named); ok && n.Obj().Name() == "AnalyzedExpression" {
+				if _, isIface := n.Underlying().(*types.Interface); isIface {
+					return true
+				}
+			}
+		}
+		return false
+	}
+	isRuntimeValue := func(t types.Type) bool {
+		n, ok := t.(*types.Named)
+		if !ok || n.Obj().Name() != "Value" || n.Obj().Pkg() == nil || !strings.HasSuffix(n.Obj().Pkg().Path(), "/value") {
+			return false
+		}
+		_, isIface := n.Underlying().(*types.Interface)
+		return isIface
+	}
+	var out []Obligation
+	for _, fn := range m.order {
+		sf := c.Prog.FuncValue(fn)
+		if sf == nil || sf.Blocks == nil {
+			continue
+		}
+		var argsP *ssa.Parameter
+		hasCallee := false
+		for _, p := range sf.Params {
+			if carriesExpr(p.Type()) {
+				argsP = p
+			}
+			if isRuntimeValue(p.Type()) {
+				hasCallee = true
+			}
+		}
+		if argsP == nil || !hasCallee {
+			continue
+		}
+		fr := actxNewFrame(sf, nil, 0)
+		argsSym := fr.sym(argsP)
+		type site struct {
+			ins  ssa.Instruction
+			what string
+		}
+		var changes, evals []site
+		var owner *types.Var
+		for _, b := range sf.Blocks {
+			for _, ins := range b.Instrs {
+				switch x := ins.(type) {
+				case *ssa.Store:
+					if fa, ok := x.Addr.(*ssa.FieldAddr); ok {
+						bt := fa.X.Type()
+						if pt, ok := bt.Underlying().(*types.Pointer); ok {
+							bt = pt.Elem()
+						}
+						if st, ok := bt.Underlying().(*types.Struct); ok && fa.Field < st.NumFields() {
+							if o := ctxField[st.Field(fa.Field)]; o != nil {
+								changes = append(changes, site{ins, "store into " + m.fieldName(st.Field(fa.Field))})
+								owner = o
+							}
+						}
+					}
+				case ssa.CallInstruction:
+					g := x.Common().StaticCallee()
+					if g == nil {
+						continue
+					}
+					if go_, _ := g.Object().(*types.Func); go_ != nil {
+						if o := writesCtx[go_]; o != nil {
+							changes = append(changes, site{ins, g.Name() + "(…)"})
+							owner = o
+							continue
+						}
+					}
+					if _, isDefer := ins.(*ssa.Defer); isDefer {
+						continue
+					}
+					for _, arg := range x.Common().Args {
+						if s := fr.sym(arg); s == argsSym || strings.HasPrefix(s, argsSym+"[") {
+							evals = append(evals, site{ins, g.Name()})
+							break
+						}
+					}
+				}
+			}
+		}
+		if len(changes) == 0 || len(evals) == 0 || owner == nil {
+			continue
+		}
+		ob := Obligation{Key: fmt.Sprintf("%s|%s|caller-supplied expressions are evaluated before the context is switched", m.fname(fn), m.fieldName(owner)), Pos: c.Pos(fn.Pos()), Nontrivial: true}
+		var late []string
+		for _, ev := range evals {
+			for _, ch := range changes {
+				if _, isDefer := ch.ins.(*ssa.Defer); isDefer {
+					continue // runs at function exit
+				}
+				after := false
+				if ch.ins.Block() == ev.ins.Block() {
+					after = actxInstrIndex(ch.ins) < actxInstrIndex(ev.ins)
+				} else {
+					after = actxReach(ch.ins.Block())[ev.ins.Block()]
+				}
+				if after {
+					late = append(late, fmt.Sprintf("%s at %s runs after %s at %s", ev.what, c.Pos(ev.ins.Pos()), ch.what, c.Pos(actxInstrPos(ch.ins))))
+					break
+				}
+			}
+		}
+		if len(late) > 0 {
+			sort.Strings(late)
+			late = actxUniq(late)
+			if len(late) > 3 {
+				late = append(late[:3], "…")
+			}
+			ob.Status = Violated
+			ob.Detail = "an argument expression of the caller (element of parameter " + argsP.Name() + ") is evaluated after the name-resolution context has been changed for the callee: " + strings.Join(late, " | ") + " — identifiers in the argument are then looked up in the scopes / module of the callee"
+		} else {
+			ob.Status = Discharged
+			ob.Detail = fmt.Sprintf("%d evaluation(s) of elements of %s, %d context change(s): no change can precede an evaluation", len(evals), argsP.Name(), len(changes))
+		}
+		out = append(out, ob)
 	}
 	return out
 }
